@@ -15,7 +15,7 @@
    event; what IS proved about quiescence is below (C09_quiescent_index_exact,
    C09_done_instances_hold_no_position, C09_no_dispatch_to_dead). *)
 From Coq Require Import NArith List Bool.
-From NG Require Import V2.Index V2.Index_proofs V2.IndexRun V2.IndexRun_proofs V2.Index_examples.
+From NG Require Import V2.Index V2.Index_proofs V2.IndexRun V2.IndexRun_proofs V2.Index_examples V2.Refs V2.Refs_proofs.
 Import ListNotations.
 Open Scope N_scope.
 
@@ -103,6 +103,32 @@ Theorem C09_no_dispatch_to_dead :
                    prog (fst k) (h_pos hd) = Some (EMatch n).
 Proof. exact reachable_no_dispatch_to_dead. Qed.
 Print Assumptions C09_no_dispatch_to_dead.
+
+(* every action referenced by a running flow still exists: V2.Refs models State.actions against
+   the references of the instances (action_uids, scope action lists); an action is removed
+   (del, or the rebuild of the 5-second clean-up) only if no listening instance references it.
+   After any finite sequence of such operations - from the empty state or from a snapshot of the
+   real State that passed refs_okb - every listening instance only references existing actions *)
+Theorem C09_refs_exist :
+  forall ops s, arun empty_astate ops = Some s -> ARefsOK s.
+Proof. exact reachable_refs_exist. Qed.
+Print Assumptions C09_refs_exist.
+
+Theorem C09_refs_exist_continued :
+  forall s0 ops s,
+    refs_okb (a_actions s0) (a_insts s0) = true -> arun s0 ops = Some s -> ARefsOK s.
+Proof. exact continued_refs_exist. Qed.
+Print Assumptions C09_refs_exist_continued.
+
+(* dropping a shared action together with its finished owner is not a step *)
+Theorem C09_shared_action_dropped_is_no_step :
+  arun empty_astate
+    [ASetInst 1 true []; ASetInst 2 true []; AAddAction 7;
+     ASetInst 1 true [7]; ASetInst 2 true [7];
+     ASetInst 1 false [7]; ADropInst 1; AReplaceActions []]
+  = None.
+Proof. exact shared_action_dropped_is_no_step. Qed.
+Print Assumptions C09_shared_action_dropped_is_no_step.
 
 (* regression documentation: the operations a broken discipline would produce are not steps *)
 Theorem C09_clear_without_removal_is_no_step :
